@@ -51,7 +51,7 @@ MIN_EVENTS = {
               'fcs_checked': 20000, 'state_checks': 400, 'slc_runs': 120, 'slc_agreement_checks': 600,
               'at_lines_checked': 1500, 'pn_exchanges': 600},
     'thorough': {'stream_checks': 8000, 'ledger_data_frames': 600000, 'ledger_credit_octets_received': 20000,
-                 'fcs_checked': 600000, 'state_checks': 8000, 'slc_runs': 2500, 'slc_agreement_checks': 12000,
+                 'fcs_checked': 600000, 'state_checks': 8000, 'slc_runs': 2000, 'slc_agreement_checks': 12000,
                  'at_lines_checked': 30000, 'pn_exchanges': 12000},
 }
 CASE_TIMEOUT = 600
@@ -68,11 +68,11 @@ def plan(tier, seed):
     q = tier == 'quick'
     cases = []
     base = seed * 1000003
-    for i in range(160 if q else 3200):
+    for i in range(160 if q else 2400):
         cases.append({'kind': 'xfer', 'seed': base + i, 'idx': i, 'tier': tier})
-    for i in range(96 if q else 1500):
+    for i in range(96 if q else 1200):
         cases.append({'kind': 'life', 'seed': base + i, 'idx': i, 'tier': tier})
-    for i in range(192 if q else 3200):
+    for i in range(192 if q else 2560):
         cases.append({'kind': 'slc', 'seed': base + i, 'idx': i, 'tier': tier})
     for i in range(64 if q else 800):
         cases.append({'kind': 'agraw', 'seed': base + i, 'idx': i, 'tier': tier})
@@ -141,8 +141,9 @@ def table(mux):
     return {dlci: d.state.name for dlci, d in mux.dlcs.items()} if mux is not None else None
 
 
-def compare_state(r: R, s: Session, after: str, key_suffix: str):
-    """DLC tables and states, and the multiplexer state, must be the same on both ends."""
+def compare_state(r: R, s: Session, after: str, key_suffix: str, expected_open=None):
+    """DLC tables and states, and the multiplexer state, must be the same on both ends; where the
+    harness knows which DLCs the API opened and closed, exactly those must be CONNECTED."""
     r.ev('state_checks')
     r.ev('oracle_evals', 2)
     tc, ts = table(s.mux), table(s.smux)
@@ -151,6 +152,13 @@ def compare_state(r: R, s: Session, after: str, key_suffix: str):
         ok = False
         r.bad(f'state/dlc-table-differs/{key_suffix}',
               f'after {after}: initiator DLCs {tc}, responder DLCs {ts}')
+    elif expected_open is not None:
+        r.ev('oracle_evals')
+        conn = {d for d, st in tc.items() if st == 'CONNECTED'}
+        if conn != set(expected_open):
+            ok = False
+            r.bad(f'state/open-set-differs-from-model/{key_suffix}',
+                  f'after {after}: both ends list {tc}, the DLCIs opened and not closed are {sorted(expected_open)}')
     mc = s.mux.state.name if s.mux else None
     ms = s.smux.state.name if s.smux else None
     if mc != ms:
@@ -416,9 +424,11 @@ async def life(case, r: R):
             return False
         return bytes(bs[s0:]) == a and bytes(bc[c0:]) == b
 
+    open_set = set()
     for j in range(ndlc):
         await open_one(j)
-    compare_state(r, s, f'opening {ndlc} DLCs', 'after-open')
+        open_set.add(chans[j] << 1)
+    compare_state(r, s, f'opening {ndlc} DLCs', 'after-open', open_set)
     for j in range(ndlc):
         if not await exchange(j, 10 * j):
             r.bad('rfcomm/stream/corrupt/multi-dlc' if ndlc > 1 else 'rfcomm/stream/corrupt',
@@ -438,7 +448,8 @@ async def life(case, r: R):
             r.bad(f'rfcomm/teardown/dlc-disconnect-raised/by-{by}', f'{type(e).__name__}: {e}')
             return
         await rg.quiesce()
-        compare_state(r, s, f'DLC {chans[j]} closed by the {by} (steps {steps})', f'after-dlc-close/by-{by}')
+        open_set.discard(chans[j] << 1)
+        compare_state(r, s, f'DLC {chans[j]} closed by the {by} (steps {steps})', f'after-dlc-close/by-{by}', open_set)
         # informational (the statement speaks of states, not of events)
         r.ev('close_events_on_both_ends' if sorted(closed_events.get(j, [])) == ['initiator', 'responder']
              else 'close_event_on_one_end_only')
@@ -460,7 +471,8 @@ async def life(case, r: R):
                 r.bad(f'rfcomm/setup/reopen-raised/closed-by-{by}', f'{type(e).__name__}: {e}')
                 return
             r.ev('reopens')
-            compare_state(r, s, f'reopening channel {chans[j]} (closed by the {by})', f'after-reopen/closed-by-{by}')
+            open_set.add(chans[j] << 1)
+            compare_state(r, s, f'reopening channel {chans[j]} (closed by the {by})', f'after-reopen/closed-by-{by}', open_set)
             if not await exchange(j, 200 + 10 * j):
                 r.bad(f'rfcomm/stream/reopened-dlc-broken/closed-by-{by}', f'exchange on reopened channel {chans[j]} failed')
             # and close it again from the other side, so that later steps see a clean table
@@ -473,7 +485,8 @@ async def life(case, r: R):
                 r.bad(f'rfcomm/teardown/dlc-disconnect-raised/by-{by2}', f'{type(e).__name__}: {e}')
                 return
             await rg.quiesce()
-            compare_state(r, s, f'reopened DLC {chans[j]} closed by the {by2}', f'after-dlc-close/by-{by2}')
+            open_set.discard(chans[j] << 1)
+            compare_state(r, s, f'reopened DLC {chans[j]} closed by the {by2}', f'after-dlc-close/by-{by2}', open_set)
     live = [pairs[j] for j in range(ndlc) if pairs[j][0].state.name == 'CONNECTED' and pairs[j][1].state.name == 'CONNECTED'
             and s.mux.dlcs.get(pairs[j][0].dlci) is pairs[j][0]]
     wire_and_counters(r, rg, live, 'after open/close sequence')
@@ -689,12 +702,12 @@ async def slc(case, r: R):
     detail = f'cfg={cfg} link={info} hf_on_client={hf_on_client}'
     r.ev('oracle_evals')
     if outcome != 'ok':
-        why = []
-        if both('THREE_WAY') and not cfg['chld']:
-            why.append('empty-call-hold-set')
-        if both('HF_IND') and not cfg['ag_hf_indicators']:
-            why.append('empty-ag-hf-indicator-list')
         last = [x for g in mon.groups() for x in g[0]][-1:] or ['?']
+        why = []
+        if last == ['AT+CHLD=?'] and not cfg['chld'] and outcome.startswith('ValueError'):
+            why.append('empty-call-hold-set')
+        if last == ['AT+BIND=?'] and not cfg['ag_hf_indicators'] and outcome.startswith('ValueError'):
+            why.append('empty-ag-hf-indicator-list')
         r.bad('slc/raised/' + ('+'.join(why) if why else 'other'),
               f'initiate_slc raised {outcome} (last command the AG saw: {last}); {detail}')
     else:
